@@ -43,7 +43,11 @@ pub struct K0(pub u32);
 pub struct K1(pub u32);
 #[derive(Component, Reflect, Serialize, Deserialize, Default)]
 #[reflect(Component)]
-pub struct K2(pub u32);
+pub struct K2(pub u32, pub Vec<u32>);
+/// K2 also carries a list whose length and contents are derived from the value, so that a stale or merged copy shows up.
+pub fn k2(val: u32) -> K2 {
+    K2(val, (0..val % 5).map(|i| val.wrapping_add(i)).collect())
+}
 /// Its reflection type path is NOT its Rust type name (what a game does to keep its scene format stable).
 #[derive(Component, Reflect, Serialize, Deserialize, Default)]
 #[reflect(Component)]
@@ -64,7 +68,7 @@ fn insert_kind(entity: &mut EntityWorldMut, kind: usize, val: u32) {
     match kind {
         0 => entity.insert(K0(val)),
         1 => entity.insert(K1(val)),
-        2 => entity.insert(K2(val)),
+        2 => entity.insert(k2(val)),
         3 => entity.insert(K3(val)),
         4 => entity.insert(K4(val)),
         _ => entity.insert(K5(val)),
@@ -75,7 +79,7 @@ fn boxed_kind(kind: usize, val: u32) -> Box<dyn PartialReflect> {
     match kind {
         0 => Box::new(K0(val)).into_partial_reflect(),
         1 => Box::new(K1(val)).into_partial_reflect(),
-        2 => Box::new(K2(val)).into_partial_reflect(),
+        2 => Box::new(k2(val)).into_partial_reflect(),
         3 => Box::new(K3(val)).into_partial_reflect(),
         4 => Box::new(K4(val)).into_partial_reflect(),
         _ => Box::new(K5(val)).into_partial_reflect(),
@@ -152,6 +156,15 @@ fn value_of(component: &dyn PartialReflect) -> Option<u32> {
     }
 }
 
+/// For K2: the list must be the one derived from the value (`false` = a stale / merged list).
+fn list_ok(component: &dyn PartialReflect) -> bool {
+    let ReflectRef::TupleStruct(ts) = component.reflect_ref() else { return true };
+    let (Some(v), Some(l)) = (ts.field(0).and_then(|f| f.try_downcast_ref::<u32>().copied()), ts.field(1)) else { return true };
+    let ReflectRef::List(list) = l.reflect_ref() else { return true };
+    let got: Vec<u32> = list.iter().filter_map(|x| x.try_downcast_ref::<u32>().copied()).collect();
+    got == k2(v).1
+}
+
 fn canonical(scene: &DynamicScene, ids: &HashMap<Entity, u64>) -> String {
     let mut entities: Vec<(u64, &DynamicEntity)> = scene
         .entities
@@ -172,7 +185,10 @@ fn canonical(scene: &DynamicScene, ids: &HashMap<Entity, u64>) -> String {
                 .iter()
                 .map(|c| {
                     let kind = kind_of(c.as_ref()).map_or("?".to_string(), |k| k.to_string());
-                    let val = value_of(c.as_ref()).map_or("?".to_string(), |v| v.to_string());
+                    let mut val = value_of(c.as_ref()).map_or("?".to_string(), |v| v.to_string());
+                    if !list_ok(c.as_ref()) {
+                        val.push_str("!stale-list");
+                    }
                     format!("{kind}={val}")
                 })
                 .collect();
